@@ -57,6 +57,9 @@ type Hub struct {
 
 	hasStarted bool
 
+	// the hub was shut down, no connections may be initiated or accepted any more
+	isShutdown bool
+
 	muxCon        sync.Mutex
 	muxConAttempt sync.Mutex
 	muxReg        sync.Mutex
@@ -107,6 +110,10 @@ func (h *Hub) Start() {
 
 // close all connections
 func (h *Hub) Shutdown() {
+	h.muxStarted.Lock()
+	h.isShutdown = true
+	h.muxStarted.Unlock()
+
 	h.mdns.Shutdown()
 	for _, c := range h.connections {
 		c.CloseConnection(false, 0, "")
@@ -117,6 +124,14 @@ func (h *Hub) Shutdown() {
 	if err := h.httpServer.Shutdown(context.Background()); err != nil {
 		logging.Log().Error("HTTP server shutdown:", err)
 	}
+}
+
+// return if the hub was shut down
+func (h *Hub) checkIsShutdown() bool {
+	h.muxStarted.Lock()
+	defer h.muxStarted.Unlock()
+
+	return h.isShutdown
 }
 
 // return the service for a SKI
